@@ -149,6 +149,10 @@ func compareMethodInputParam(typ *types.Named) *types.Type {
 			continue
 		}
 		inputType := sig.Params().At(0).Type()
+		if !types.AssignableTo(typ, inputType) && !types.AssignableTo(types.NewPointer(typ), inputType) {
+			// not a method that compares two values of this type
+			continue
+		}
 		return &inputType
 	}
 	return nil
